@@ -403,8 +403,9 @@ fn p_span(s: &TimeSpan, st: &Style) -> Option<String> {
         if !(0..=1440).contains(&mins) {
             return None;
         }
-        // "/mm" for < 60 minutes, "/hh:mm" otherwise (no space after '-': grammar alternative 1/2)
-        let d = if st.dash_space { format!("{a} -{b}") } else { format!("{a}-{b}") };
+        // "/mm" for < 60 minutes, "/hh:mm" otherwise. The optional spaces around '-' are the same
+        // documented relaxation as for a span without a step
+        let d = if st.dash_space { format!("{a} - {b}") } else { format!("{a}-{b}") };
         return Some(if mins < 60 { format!("{d}/{:02}", mins) } else { format!("{d}/{:02}:{:02}", mins / 60, mins % 60) });
     }
     if s.open_end && s.range.end == Time::Fixed(ExtendedTime::MIDNIGHT_24) && st.alt_forms {
